@@ -291,8 +291,9 @@ def gen(prop, stream, tier, avoid):
                 op["v2"] = [rng.dyadic(-16, 16, 8) for _ in range(d)]
             elif h == "vector_cross":
                 d = rng.pick([2, 3, 3])
+                d2 = d if rng.chance(0.7) else 5 - d        # a planar vector may be crossed with a spatial one (documented: 2 or 3 elements each)
                 op["v1"] = [rng.dyadic(-16, 16, 8) for _ in range(d)]
-                op["v2"] = [rng.dyadic(-16, 16, 8) for _ in range(d)]
+                op["v2"] = [rng.dyadic(-16, 16, 8) for _ in range(d2)]
             elif h in ("vector_normalize", "vector_magnitude"):
                 d = rng.randint(1, 4)
                 v = [rng.dyadic(-16, 16, 8) for _ in range(d)]
